@@ -111,12 +111,7 @@ def asPathD (r : ShapeRec) : Except PyErr String :=
     -- as_path reads the already clamped rx/ry
     let x := r.getF "x"; let y := r.getF "y"; let w := r.getF "width"; let h := r.getF "height"
     let rx := r.getF "rx"; let ry := r.getF "ry"
-    let arc (ex ey : Float) : Cmd Float := ('A', [rx, ry, 0, 0, 1, ex, ey])
-    Path.print ([('M', [x + rx, y]), ('H', [x + w - rx])] ++
-      (if 0 < rx then [arc (x + w) (y + ry)] else []) ++ [('V', [y + h - ry])] ++
-      (if 0 < rx then [arc (x + w - rx) (y + h)] else []) ++ [('H', [x + rx])] ++
-      (if 0 < rx then [arc x (y + h - ry)] else []) ++ [('V', [y + ry])] ++
-      (if 0 < rx then [arc (x + rx) y] else []) ++ [('Z', [])])
+    Path.print (ShapeCmds.rectCmds x y w h rx ry)
   | "circle" => SvgPath.circlePath (r.getF "r") (r.getF "cx") (r.getF "cy")
   | "ellipse" => SvgPath.ellipsePath (r.getF "rx") (r.getF "ry") (r.getF "cx") (r.getF "cy")
   | "line" => SvgPath.linePath (r.getF "x1") (r.getF "y1") (r.getF "x2") (r.getF "y2")
